@@ -157,8 +157,11 @@ class Latency:
         ping requests, halting latency measurement.
         """
         self._stop_event.set()
-        if self._ping_thread_instance is not None:
-            self._ping_thread_instance.join()
+        # stop() can be called from two threads at the same time (close_link() and a
+        # link error), use a local reference
+        ping_thread = self._ping_thread_instance
+        if ping_thread is not None:
+            ping_thread.join()
             self._ping_thread_instance = None
 
     def _ping_thread(self, interval: float = 0.1) -> None:
